@@ -1,11 +1,12 @@
-\* thorough: <= 3 classes with <= 3 recorded calls each
+\* thorough: every model of <= 3 classes (one package, two names) with <= 3 recorded calls each (callees y, Z, "no class"):
+\* 512 000 models
 SPECIFICATION Spec
 CONSTANTS
   MaxDeps = 3
   MaxCalls = 3
-  Pkgs = {"", "x"}
+  Pkgs = {"x"}
   ClassNames = {"y", "Z"}
-  CalleeNames = {"y", ""}
+  CalleeNames = {"y", "Z", ""}
   ValueLoop = "index"
   CalleeTest = "classname"
   KeyForm = "pair"
